@@ -368,8 +368,11 @@ def defs(repo: Repo) -> List[Ob]:
             uu = got.matmul(got.dagger())
             (obs.append(ok("DEFS", fi, "unitary", props, fi.node, "U U^dagger = I exactly")) if uu == identity(len(got.rows)) else
              obs.append(bad("DEFS", fi, "unitary", props, fi.node, f"{name} is not unitary: U U^dagger = {uu!r:.160}")))
-    if n_ok + sum(1 for o in obs if o.status == "violation") < 18:
-        raise AnalysisError(f"DEFS: only {n_ok} constructors could be folded (floor 18 of {len(GATE_SPECS)})")
+    decided = n_ok + sum(1 for o in obs if o.status == "violation" and o.key == "definition")
+    if decided < len(GATE_SPECS):
+        # every constructor folds on the confirmed tree: one that no longer does is undecided, not fine
+        und = [o.where for o in obs if o.status == "unanalysed"]
+        raise AnalysisError(f"DEFS: {decided} of {len(GATE_SPECS)} constructors could be folded; undecided: {und} ({'; '.join(o.msg[:80] for o in obs if o.status == 'unanalysed')})")
     return obs
 
 
